@@ -84,6 +84,7 @@ def utils_harnesses(tier):
     for f in range(1, 4 if tier == "quick" else 5):
         hs.append(mask_harness("random", f))
     hs.append(typechecks_harness())
+    hs.append(temperature_harness())
     return hs
 
 
@@ -282,20 +283,70 @@ def mask_harness(kind, features):
                    check_defined=False)
 
 
+class _TorchWithTensorCtor:
+    """the module-global `torch` of utils.torchutils during the get_temperature harness: everything is the real torch, except that the legacy
+    constructor torch.Tensor([scalar]) (which TorchFunctionMode does not see) keeps the term of a symbolic scalar.  Assumed contract:
+    torch.Tensor([v]) is the one-element float tensor holding v."""
+
+    def __getattr__(self, n):
+        return getattr(torch, n)
+
+    @staticmethod
+    def Tensor(data):
+        from tsv.core import TFloat, lift
+        if isinstance(data, (list, tuple)) and any(isinstance(v, TFloat) for v in data):
+            return Sym.make(np.array([toreal(lift(v)) for v in data], dtype=object), torch.float32)
+        return torch.Tensor(data)
+
+
 def temperature_harness():
+    """get_temperature(max_value, bound): the temperature T with sigmoid(T * max_value) = bound, capped at 1.
+    requires max_value > 0 and 0 < bound < 1 (a data maximum and a sigmoid level)"""
+    from tsv.core import SymFloat
+    from tsv.ops import s_exp, s_log
+    from tsv import terms as T
+
     def run(h, ctx):
-        mv = h.inp("max_value", ()); bd = h.inp("bound", ())
-        ctx.assume(el(mv) > 0); ctx.assume(el(bd) > 0); ctx.assume(el(bd) < 1)
+        mv, bd = z3.Real("max_value"), z3.Real("bound")
+        ctx.assume(z3.And(mv > 0, bd > 0, bd < 1))
         h.mv, h.bd = mv, bd
-        from tsv.core import SymScalar
-        return TU.get_temperature(SymScalar(el(mv)), SymScalar(el(bd)))
+        saved = TU.torch
+        TU.torch = _TorchWithTensorCtor()
+        try:
+            return TU.get_temperature(SymFloat(3.0, mv), SymFloat(0.75, bd))
+        finally:
+            TU.torch = saved
 
     def post(h, ctx, out):
-        t = el(out) if isinstance(out, torch.Tensor) else toreal(out)
-        mv, bd = el(h.mv), el(h.bd)
-        # sigmoid(t * mv) = bound  when t < 1:   exp(-t mv) = (1 - b)/b
-        ensure(h, ctx, "C20.temperature-le-1", t <= 1)
-    return Harness("get_temperature[]", run, post, functions=[TU.get_temperature])
+        mv, bd = h.mv, h.bd
+        if isinstance(out, torch.Tensor):
+            t = toreal(P(out).reshape(-1)[0])
+            ensure(h, ctx, "C20.temperature.shape", z3.BoolVal(P(out).size == 1))
+            # sigmoid(t * max_value) = bound   <=>   t * max_value = logit(bound) = log(bound) - log(1 - bound)
+            logit = s_log(bd) - s_log(T.add(rv(1), T.neg(bd)))
+            ensure(h, ctx, "C20.temperature.sigmoid-reaches-bound", t * mv == logit, meta={"tactic": "ring"})
+            ensure(h, ctx, "C20.temperature.at-most-one", t <= 1)
+        else:
+            # the cap: returned 1 only when the exact temperature would exceed it, i.e. sigmoid(1 * max_value) <= bound
+            ensure(h, ctx, "C20.temperature.cap-is-one", z3.BoolVal(out == 1))
+            logit = s_log(bd) - s_log(T.add(rv(1), T.neg(bd)))
+            ensure(h, ctx, "C20.temperature.cap-only-when-needed", logit >= mv)
+
+    def native_call(h, inp):
+        return TU.get_temperature(float(inp["max_value"]), float(inp["bound"]))
+
+    def native_clauses(h, inp, out):
+        import math
+        mv, bd = float(inp["max_value"]), float(inp["bound"])
+        exact = (math.log(bd) - math.log(1 - bd)) / mv
+        if isinstance(out, torch.Tensor):
+            t = float(out)
+            return {"C20.temperature.sigmoid-reaches-bound": abs(1 / (1 + math.exp(-t * mv)) - bd) < 1e-4, "C20.temperature.at-most-one": t <= 1 + 1e-6, "C20.temperature.shape": out.numel() == 1}
+        return {"C20.temperature.cap-is-one": out == 1, "C20.temperature.cap-only-when-needed": exact >= 1 - 1e-6}
+    hn = Harness("get_temperature[]", run, post, native_call=native_call, native_clauses=native_clauses,
+                 sample=lambda h, rng: {"max_value": np.array(rng.uniform(0.5, 20.0)), "bound": np.array(rng.uniform(0.55, 0.999))}, functions=[TU.get_temperature])
+    hn.native_float32 = False
+    return hn
 
 
 def typechecks_harness():
